@@ -132,6 +132,25 @@ def computation_case(N, T, deriv_kind, stepwise, ul_kind="brownian"):
     return fn
 
 
+def passthrough_case(fname, ul_kind):
+    """a hedger with one buffer-backed feature and a pass-through model must not write into the buffer"""
+
+    def fn(c):
+        from pfhedge.nn import Hedger
+
+        env = cm.market(c, 2, 3, "european", "underlier", ul_kind=ul_kind)
+        ul, deriv = env["ul"], env["derivative"]
+        bufs = all_buffers([ul])
+        snaps = [snapshot(b) for _, _, b in bufs]
+        hedger = cm.make_hedger(c, [cm.make_feature(c, fname)], 1, model=torch.nn.Identity())
+        hedger.compute_hedge(deriv)
+        hedger.compute_pl(deriv)
+        for (ins, nm, b), s in zip(bufs, snaps):
+            unchanged(c, "identity-model hedge over %s leaves %s" % (fname, nm), b, s)
+
+    return fn
+
+
 def functional_case():
     """functional forms leave caller tensors untouched"""
     from pfhedge.nn import functional as F
@@ -236,6 +255,8 @@ def cases():
             cs.append(Case("compute/%s/step=%s" % (dk, sw), computation_case(2, 3, dk, sw), encodes=enc, bounds="N=2 T=3 H=2", timeout=60))
     for dk in ("american_binary", "european_binary", "variance_swap"):
         cs.append(Case("compute/%s" % dk, computation_case(2, 4, dk, True, "heston"), tier="thorough", encodes=enc, bounds="N=2 T=4 H=2", timeout=120))
+    for f, k in (("underlier_spot", "brownian"), ("variance", "heston"), ("volatility", "localvol"), ("underlier_log_spot", "brownian")):
+        cs.append(Case("passthrough/%s" % f, passthrough_case(f, k), encodes=enc, bounds="N=2 T=3, torch.nn.Identity model, single feature"))
     cs.append(Case("functional", functional_case(), encodes=enc, bounds="tensors up to (2,2,3)", timeout=60))
     seqs2 = [("hedgeA",), ("plA", "hedgeB"), ("plA", "plA"), ("inputA", "plB"), ("critA", "hedgeA")]
     for sq in seqs2:
